@@ -22,7 +22,9 @@ PROP = dict(
           "harness performs when the wire has gone idle in the last phase). A quarter of the cases use a burst template (>=3 adds in one commitment, one refused by the forwarder, "
           "one held, two restarts); a fifth use a slots template (the forwarder's outgoing channel has max_accepted_htlcs "
           "1-2, held payments occupy the slots, further adds of the same batch pass the switch but are refused by the "
-          "outgoing link = mailbox FailAdd, then 1-2 restarts). After the last phase all hold invoices are resolved and the harness polls for quiescence "
+          "outgoing link = mailbox FailAdd, then 1-2 restarts; half of these are preceded by slots+1 or slots+2 completed "
+          "payments in the opposite direction, one at a time, so that incoming indexes of the refused adds equal earlier "
+          "answered outgoing indexes on the shared channel; a third have no restart, flap or cut after the refusal). After the last phase all hold invoices are resolved and the harness polls for quiescence "
           "(every payment result known, all four channel ends IsChannelClean) with doomed 'nudge' payments when the wire is "
           "idle; deadline (90 s) => the case is counted 'inconclusive' and asserts nothing. Oracle: (A) no HTLC / pending "
           "commitment in any durable channel state, both ends agree, local+remote+fee == capacity; (B) Bob's total over both "
@@ -37,7 +39,8 @@ PROP = dict(
           "restart; each HTLC forwarded once (retransmission once per reconnect, same id), answered once per "
           "connection, never both settled and failed, never forwarded after its incoming side was answered and signed; "
           "(G) a forwarded HTLC whose circuit is half-open and loaded from disk after the incoming link finished "
-          "reprocessing its packages, with nothing pending and a silent wire for 20 s, is reported as dangling. "
+          "reprocessing its packages, with nothing pending and a silent wire for 20 s, is reported as dangling; likewise a "
+          "half-open circuit not loaded from disk whose add is in no mailbox, if no link flapped since the switches started. "
           "Non-trivial = the lifetimes (first add on the wire .. result known to the sender) of >=2 payments overlapped AND "
           "(a cut fired OR a restart found an HTLC / pending commitment in some durable channel state OR a flap hit a "
           "channel that was not clean). Distinct = "
